@@ -957,6 +957,10 @@ def count_wraps():
     return out + [2 ** 64 - 1, 2 ** 64 - 5, 2 ** 64 - 9, 2 ** 63, 2 ** 63 - 1, 2 ** 32 - 1, 2 ** 32, 2 ** 31, 2 ** 31 - 1]
 
 
+# method tags no configuration recognises (wrong case, wrong terminator, unassigned, forbidden bytes)
+REFUSED_TAGS = ("$9$", "$zz$", "$Y$", "$2c$", "$sha2$", "$7x", "*0", "$", "$$", "\x7fab", "$1x", "$GY$", "$MD5", "$SHA1")
+
+
 def gs_cmd(fn, prefix, count, rb, nrbytes="len", size=192):
     return "%s %s %d %s %s %d" % (fn, "-" if prefix is None else (hx(prefix) if prefix else "="), count,
                                   "-" if rb is None else (rb.hex() if rb else "="), nrbytes, size)
@@ -1064,6 +1068,14 @@ def c10(ctx):
                     rb = b"\xff" * len(rb)                 # the extreme of the randomised cost windows
                 for fn in ("gensalt_rn", "gensalt", "gensalt_ra") + (("gensalt_r", "xgensalt_r", "xgensalt") if nr == 16 else ()):
                     cmds.append(gs_cmd(fn, pfx, c, rb))
+    # a prefix no method recognises, asked for three times in a row after each method's successful call (a method lookup
+    # remembered between calls would answer the repeat with the previous method's generator)
+    for m in E:
+        for u in REFUSED_TAGS:
+            rb = bytes(rng.randrange(256) for _ in range(32))
+            cmds.append(gs_cmd("gensalt_rn", gen.PREFIX[m], 0, rb))
+            for fn in rng.sample(("gensalt_rn", "gensalt", "gensalt_ra", "gensalt_r", "gensalt_rn"), 3):
+                cmds.append(gs_cmd(fn, u, 0, rb))
     ev1 = ctx.run_xcv(cmds)
     # every generated setting with an affordable cost is hashed; the result must keep it literally
     follow = ["obj 0 0 0"]
@@ -1699,6 +1711,11 @@ def c18(ctx):
             cmds.append("checksalt %s" % hx(t2.encode("latin-1")))
     for s in gen.INVALID_SETTINGS:
         cmds.append("checksalt %s" % hx(s.encode("latin-1")))
+    # an unrecognised tag classified three times in a row after each method's own setting (history independence)
+    for m in E:
+        for u in REFUSED_TAGS:
+            cmds.append("checksalt %s" % hx(cheap_setting(m, rng)))
+            cmds += ["checksalt %s" % hx((u + gen.salt(rng, 8)).encode("latin-1"))] * 3
     for _ in range(200 if quick else 5000):
         n = rng.choice((4, 5, 6, 8, 13, 30))
         cmds.append("checksalt %s" % hx(bytes(rng.choice((36, 36, 50, 97, 98, 121, 95, 103, 109, 100, 53, 115, 104, 49, 54, 55, 51, 120, 46, 81, 35, 58, 200)) for _ in range(n))))
